@@ -248,6 +248,17 @@ func (p C10) Run(c *sim.Ctx, t *sim.Tape) sim.RunResult {
 
 	for i := 0; i < 40 && (i < 5 || t.Chance(920)); i++ {
 		o := bpOp(t, fmt.Sprintf("<%d>", i))
+
+		if o.K == "Rename" {
+			if a1, _ := bp.Abs(o.P); a1 != "" {
+				if a2, _ := bp.Abs(o.Q); a1 == a2 {
+					// os.Rename compares its two arguments as strings before anything else (a directory renamed onto
+					// "itself" fails only when both strings are equal): BasePathFS cleans the strings, the twin does not.
+					o = fsx.Op{K: "Stat", P: o.P}
+				}
+			}
+		}
+
 		outBefore := outsideB(base)
 
 		var got fsx.Result
@@ -416,6 +427,14 @@ func bpNormalise(bp, twin avfs.VFS, o fsx.Op, got, want fsx.Result) (g, w string
 		}
 
 		return set(bp, got.Data), set(twin, want.Data), nil
+	}
+
+	if (o.K == "Stat" || o.K == "Lstat") && got.Err == "ok" && want.Err == "ok" && (bp.Clean(o.P) != o.P || !strings.HasPrefix(o.P, "/")) {
+		// the reported name is the last element of the string given (as os.Stat does); BasePathFS hands a cleaned
+		// path to its base: for unclean paths only the attributes are compared (the root's own name is judged below).
+		if gf := strings.Fields(got.Data); len(gf) > 0 && gf[0] != "a" {
+			return statRest(got.Data), statRest(want.Data), nil
+		}
 	}
 
 	if o.K == "FStat" && got.Err == "ok" && want.Err == "ok" {
